@@ -105,7 +105,7 @@ package simpleshell
 //@   on enter exec.Cmd.Run(cmd): assert(false, "typestate_Run_waits_while_the_pipes_may_still_be_read")
 //@   on enter exec.Cmd.Wait(cmd): assert(cmd == c.cmd && started && drainedOut && drainedErr && !waited, "typestate_Wait_only_after_both_pipe_copies_finished")
 //@   on call exec.Cmd.Wait(cmd) (e): waited = true; waitErr = e
-//@   on enter io.PipeWriter.CloseWithError(w, e): assert(w == c.outw && !closed && (startFailed || (drainedOut && drainedErr)), "output_stream_ends_only_after_everything_was_relayed"); closed = true
+//@   on enter io.PipeWriter.CloseWithError(w, e): assert(w == c.outw && !closed && (startFailed || (drainedOut && drainedErr)), "output_stream_ends_only_after_everything_was_relayed"); assert(startFailed || waited, "output_stream_ends_only_once_the_command_has_exited"); closed = true
 //@   ensures ran_to_completion: imp(started, waited && closed && drainedOut && drainedErr && err == waitErr)
 //@   ensures start_failure_reported: imp(startFailed, err != nil && closed)
 //@   ensures started_or_failed: started || startFailed
